@@ -258,6 +258,25 @@ theorem yes_cover_is_a_branchfree_oriented_covering (s : DS.DSymData) (f : Facts
   obtain ⟨hb, hv, hc, _⟩ := C15.ptc_result_is_branchfree s cov hs hsz hF ho
   exact ⟨cov, ho, C15.ptc_result_is_oriented s cov hs.toValidTables hsz hF ho, hv, hc, hb⟩
 
+/-- **yes_cover_group_is_Z3_presented.**  For a valid D-symbol whose oriented cover is connected,
+    the orbifold fundamental group of the cover behind a `Yes` of the model is isomorphic to a
+    presented group whose abelian invariants — model value of `abelian_invariants`, equal to the
+    determinantal-divisor definition for relators over its generators — are `[0, 0, 0]`
+    (Props/C15 `ptc_cover_group_presentation`): the homology part of the certificate, proved. -/
+theorem yes_cover_group_is_Z3_presented (s : DS.DSymData) (f : Facts) (hf : FactsOf s f)
+    (hs : DS.ValidSym s) (hsz : 1 ≤ s.size)
+    (hF : ∀ oc fg, DS.orientedCover s = .ok oc → FG.fundamentalGroup oc = .ok fg → D3.FuelOK fg)
+    (hconn : ∀ oc, DS.orientedCover s = .ok oc → oc.view.isConnected = true)
+    (hyes : decideVerdict f = .yes) :
+    ∃ cov (gens srels : List (List Int)), D3.pseudoToroidalCover s = .ok (some cov) ∧
+      Inv.abelianInvariants gens.length srels = .ok [0, 0, 0] ∧
+      ((∀ w ∈ srels, ∀ g ∈ w, Inv.InRange gens.length g) →
+        SpecC14.expected gens.length srels = [0, 0, 0]) ∧
+      Nonempty (FGP.TGroup cov ≃* PresentedGroup (CosetP.relSet gens.length srels)) := by
+  obtain ⟨_, _, _, cov, _, _, _, _, ho, _, _⟩ := yes_carries_certificate s f hf hs.toValidTables hsz hF hyes
+  obtain ⟨gens, srels, h1, h2, h3⟩ := C15.ptc_cover_group_presentation s cov hs hsz hF hconn ho
+  exact ⟨cov, gens, srels, ho, h1, h2, h3⟩
+
 /-! ### open (not theorems): the statements, for the record -/
 
 /-- `t` is `s` with the chambers renumbered by `p` -/
